@@ -34,9 +34,6 @@ theorem C01_ack_only_after_commit (cfg : Cfg) (w : World) (l id : Nat) (o : Int)
         exact ⟨by rw [← h]; exact h3, h.symm⟩
       · simp [h3] at h
 
-def TermsSorted (X : List Entry) : Prop :=
-  ∀ (i j : Nat) (a b : Entry), i ≤ j → X[i]? = some a → X[j]? = some b → a.term ≤ b.term
-
 /-- **C01 (b), partial** the election step: candidate `M` holds the entry `e` of term `T` at offset `o`; the
     coordinator's winner `B` has a head not lower than `M`'s (C05) and that head is an entry of term `T`;
     both logs are cut from the per-term logs. Then `B` holds `e` at offset `o`. -/
